@@ -15,12 +15,14 @@ import (
 type Frame struct {
 	Name string   // name the callee was called by at the call site
 	Args []string // current values of the parameters, Abbrev rendered
+	Full []string // the same values rendered in full
 }
 
 // RunError is a runtime error report.
 type RunError struct {
 	Class    string    // error class, one of the Err* constants
 	Operands []string  // operands of the failing operation, Abbrev rendered
+	FullOps  []string  // the same operands rendered in full
 	Op       string    // failing operation: a binary operator, "u"+unary operator, index, slice, assign, call, cond, aton, read
 	Stacks   [][]Frame // per coroutine (failing one first, main last) calls innermost first
 }
@@ -246,15 +248,17 @@ func (in *Interp) fail(class string, operands ...Value) {
 	in.op = ""
 	for i, o := range operands {
 		e.Operands[i] = Abbrev(o)
+		e.FullOps = append(e.FullOps, String(o))
 	}
 	for co := in.cur; co != nil; co = co.parent {
 		st := make([]Frame, 0, len(co.calls))
 		for i := len(co.calls) - 1; i >= 0; i-- {
 			c := co.calls[i]
-			f := Frame{Name: c.name, Args: make([]string, len(c.fn.params))}
+			f := Frame{Name: c.name, Args: make([]string, len(c.fn.params)), Full: make([]string, len(c.fn.params))}
 			for j, p := range c.fn.params {
 				v, _ := c.act.get(p)
 				f.Args[j] = Abbrev(v)
+				f.Full[j] = String(v)
 			}
 			st = append(st, f)
 		}
